@@ -119,7 +119,8 @@ def case_line(case):
     ops = ','.join(case['ops'])
     look = '/'.join(','.join('%s:%d' % (k, v) for k, v in fx) for fx in case['look'])
     return 'sim names=%s vals=%s repmax=%d file=%d keep=%s ops=%s outs=%s look=%s' % (
-        ','.join(names), vals, case['repmax'], 1 if case['file'] else 0, ';'.join(case['keep']), ops, outs, look)
+        ','.join(names), vals, case['repmax'], 1 if case['file'] else 0, ';'.join(case['keep']), ops, outs, look) \
+        + (' xr=' + xr_token(case) if case.get('xr') else '')
 
 
 def grid_line(case):
@@ -417,6 +418,151 @@ def _stat(res, j, mat=None):
                      str(mat.base_num(mi._value)), _int(tk._value)]), _int(sk._value)
 
 
+# ------------------------------------------------------------------ extra results: every observable of a Result
+XTYPES = 'SRMC'
+
+
+def xr_specs(case):
+    """[(type letter, accumulate flag, updates per repetition, construction form)]"""
+    out = []
+    for t in case.get('xr') or []:
+        f = t.split(':')
+        out.append((f[0][0], f[0][1] == '1', int(f[1]), f[2] if len(f) > 2 else 'ctor'))
+    return out
+
+
+def xr_token(case):
+    return ','.join('%s:%s' % tuple(t.split(':')[:2]) for t in case.get('xr') or [])
+
+
+def x_update(ty, a, j):
+    """the j-th update of an extra result in the repetition that returned `a`: (value, total)"""
+    if ty in 'SM':
+        return a + j, None
+    if ty == 'R':
+        return (abs(a) + j) % 5, 8 * (j + 1)
+    return (abs(a) + j) % 4, None
+
+
+def build_extras(res, case, a):
+    """adds the extra results of one repetition to the SimulationResults `res`, through the construction
+    form of each spec: constructor + update / Result.create / add_new_result"""
+    from pyphysim.simulations.results import Result
+    np = _np()
+    code = {'S': Result.SUMTYPE, 'R': Result.RATIOTYPE, 'M': Result.MISCTYPE, 'C': Result.CHOICETYPE}
+    conv = {'int': int, 'np.int64': np.int64, 'np.int16': np.int16}[case.get('xtype', 'int')]
+    for i, (ty, acc, k, form) in enumerate(xr_specs(case)):
+        name = 'x%d' % i
+        ups = [x_update(ty, a, j) for j in range(k)]
+
+        def upd(r, v, t):
+            if t is None:
+                r.update(conv(v))
+            else:
+                r.update(conv(v), conv(t))
+        if form == 'create' and k >= 1:
+            v0, t0 = ups[0]
+            r = Result.create(name, code[ty], conv(v0), 4 if ty == 'C' else (conv(t0) if t0 is not None else 0),
+                              accumulate_values=acc)
+            for v, t in ups[1:]:
+                upd(r, v, t)
+            res.add_result(r)
+        elif form == 'addnew' and k >= 1 and not acc:
+            v0, t0 = ups[0]
+            res.add_new_result(name, code[ty], conv(v0), 4 if ty == 'C' else (conv(t0) if t0 is not None else 0))
+            for v, t in ups[1:]:
+                upd(res[name][-1], v, t)
+        else:
+            r = Result(name, code[ty], accumulate_values=acc, choice_num=4 if ty == 'C' else None)
+            for v, t in ups:
+                upd(r, v, t)
+            res.add_result(r)
+
+
+def _frac(x):
+    f = Fraction(x) if isinstance(x, (int, float)) else Fraction(float(x))
+    return '%d_%d' % (f.numerator, f.denominator)
+
+
+def rcanon(r):
+    """every observable of one Result object, in the model's notation"""
+    from pyphysim.simulations.results import Result
+    letter = {Result.SUMTYPE: 'S', Result.RATIOTYPE: 'R', Result.MISCTYPE: 'M', Result.CHOICETYPE: 'C'}.get(
+        r.type_code, '?%r' % (r.type_code,))
+    try:
+        v = '.'.join(str(int(x)) for x in r._value) if letter == 'C' else _int(r._value)
+        return '%s%d<%s,%s,%s,%s,%s,%s,%s>' % (
+            letter, 1 if r.accumulate_values_bool else 0, v, _int(r._total), _int(r.num_updates),
+            _frac(r._result_sum), _frac(r._result_squared_sum),
+            '.'.join(_int(x) for x in r._value_list), '.'.join(_int(x) for x in r._total_list))
+    except Exception as e:
+        return '%s?%s' % (letter, type(e).__name__)
+
+
+def _xstat(res, j, case):
+    specs = xr_specs(case)
+    if not specs:
+        return ''
+    return '~' + ''.join(rcanon(res['x%d' % i][j]) if 'x%d' % i in res.get_result_names()
+                         and j < len(res['x%d' % i]) else '!missing' for i in range(len(specs)))
+
+
+def expected_extras(case, succ):
+    """first principles: what the stored extra results must show after the successful repetitions `succ`
+    (their values `a`, in execution order) were merged: values / totals / counts are sums (MISC: the last
+    repetition), the accumulated lists hold every update of every repetition in order"""
+    specs = xr_specs(case)
+    if not specs:
+        return ''
+    out = []
+    for ty, acc, k, form in specs:
+        ups = [x_update(ty, a, j) for a in succ for j in range(k)]
+        vl = [v for v, t in ups] if acc else []
+        tl = [t for v, t in ups] if (acc and ty == 'R') else []
+        rsum = rsq = Fraction(0)
+        total = 0
+        if ty == 'S':
+            value = sum(v for v, t in ups)
+            n = len(ups)
+            rsum = Fraction(value)
+            rsq = Fraction(sum(v * v for v, t in ups))
+            v_s = str(value)
+        elif ty == 'R':
+            value = sum(v for v, t in ups)
+            total = sum(t for v, t in ups)
+            n = len(ups)
+            rsum = sum((Fraction(v, t) for v, t in ups), Fraction(0))
+            rsq = sum((Fraction(v, t) ** 2 for v, t in ups), Fraction(0))
+            v_s = str(value)
+        elif ty == 'M':
+            last = [x_update(ty, succ[-1], j) for j in range(k)] if succ else []
+            v_s = str(last[-1][0]) if last else '0'
+            n = k if succ else 0
+        else:
+            cnt = [0, 0, 0, 0]
+            for v, t in ups:
+                cnt[v] += 1
+            v_s = '.'.join(str(c) for c in cnt)
+            total = len(ups)
+            n = len(ups)
+        out.append('%s%d<%s,%d,%d,%s,%s,%s,%s>' % (ty, 1 if acc else 0, v_s, total, n, _frac(rsum), _frac(rsq),
+                                                    '.'.join(str(x) for x in vl), '.'.join(str(x) for x in tl)))
+    return '~' + ''.join(out)
+
+
+def gen_xr(rng, n=None):
+    """extra results of the scripted program: every type x accumulate on / off x 0-2 updates per
+    repetition x construction form"""
+    out = []
+    for _ in range(rng.randint(1, 4) if n is None else n):
+        ty = rng.choice('SRMCMM')
+        acc = rng.chance(0.65)
+        k = rng.choice([1, 1, 2, 2, 0])
+        form = rng.choice(['ctor', 'create', 'create', 'addnew'])
+        out.append('%s%d:%d:%s' % (ty, 1 if acc else 0, k, form))
+    return out
+
+
 def _reps(x):
     if x is None:
         return 'none'
@@ -472,6 +618,7 @@ def make_runner(case, mat=None, content=None, repmax=None):
             r.add_new_result('ratio', Result.RATIOTYPE, abs(o) % 5, 8)
             r.add_new_result('misc', Result.MISCTYPE, mat.out(o))
             r.add_new_result('tok', Result.SUMTYPE, 1 << c)
+            build_extras(r, case, o)
             return r
 
         def _keep_going(self, current_params, current_sim_results, current_rep):
@@ -485,6 +632,7 @@ def make_runner(case, mat=None, content=None, repmax=None):
 
     runner = Scripted()
     runner.mat = mat
+    runner.case = case
     runner.rep_max = mat.repmax(case['repmax'] if repmax is None else repmax)
     p = runner.params
     p.add(FIXED_EXTRA, FIXED_EXTRA_VALUE)
@@ -508,6 +656,7 @@ def observe(runner, tmp, with_store=True):
     res = runner.results
     nres = len(res['sum']) if 'sum' in res.get_result_names() else 0
     stats = [_stat(res, j, runner.mat) for j in range(nres)]
+    xstats = [_xstat(res, j, runner.case) for j in range(nres)]
     store = {}
     if with_store and tmp is not None:
         for fn in sorted(os.listdir(tmp)):
@@ -515,9 +664,9 @@ def observe(runner, tmp, with_store=True):
                 idx = int(fn.split('_unpack_')[1].split('.')[0])
                 sr = SimulationResults.load_from_file(os.path.join(tmp, fn))
                 st, sk = _stat(sr, 0, runner.mat)
-                store[idx] = (int(sr.current_rep), sk, st)
+                store[idx] = (int(sr.current_rep), sk, st, _xstat(sr, 0, runner.case))
     p = runner.params
-    return {'stats': stats, 'reps': _reps(runner.runned_reps), 'rr': _reps(res.runned_reps), 'store': store,
+    return {'stats': stats, 'xstats': xstats, 'reps': _reps(runner.runned_reps), 'rr': _reps(res.runned_reps), 'store': store,
             'params': snap({k: v for k, v in p.parameters.items()}), 'unpacked': sorted(p._unpacked_parameters_set),
             'rep_max': int(runner.rep_max), 'results_id': id(res)}
 
@@ -546,10 +695,10 @@ def run_op(runner, op, tmp):
     stats, store = after['stats'], after['store']
     part = 'st=%s log=%s reps=%s rr=%s res=%s store=%s' % (
         status, ','.join(str(c[0]) for c in calls), after['reps'], after['rr'],
-        '|'.join('%s/%s' % s for s in stats),
-        '|'.join('%d:%d:%s:%s' % ((i,) + store[i]) for i in sorted(store)))
+        '|'.join('%s%s/%s' % (st, x, sk) for (st, sk), x in zip(stats, after['xstats'])),
+        '|'.join('%d:%d:%s:%s%s' % ((i,) + store[i]) for i in sorted(store)))
     ob = {'status': status, 'calls': calls, 'events': runner.events[estart:], 'reps': runner.runned_reps,
-          'stats': stats, 'store': dict(store)}
+          'stats': stats, 'xstats': after['xstats'], 'store': dict(store)}
     if status not in ('ok', 'Exhausted', 'SkipThisOne'):
         # R4: a rejected call must leave every observable as it was
         ob['rejected_changed'] = diff_obs(before, after, ignore=('results_id',))
@@ -596,13 +745,116 @@ def run_impl(case, scratch):
         shutil.rmtree(tmp, ignore_errors=True)
 
 
+# ------------------------------------------------------------------ merge / append paths without a runner
+def mrg_line(case):
+    return 'mrg xr=%s groups=%s' % (xr_token(case), '|'.join('.'.join(str(a) for a in g) for g in case['groups']))
+
+
+def _rep_results(case, a, c):
+    """the SimulationResults one repetition returns (same program as the scripted runner)"""
+    from pyphysim.simulations.results import Result, SimulationResults
+    r = SimulationResults()
+    r.add_new_result('sum', Result.SUMTYPE, a)
+    r.add_new_result('ratio', Result.RATIOTYPE, abs(a) % 5, 8)
+    r.add_new_result('misc', Result.MISCTYPE, a)
+    r.add_new_result('tok', Result.SUMTYPE, 1 << c)
+    build_extras(r, case, a)
+    return r
+
+
+def _canon_results(res, j, case):
+    s, ra, mi, tk = (res[n][j] for n in ('sum', 'ratio', 'misc', 'tok'))
+    return '/'.join([_int(s._value), _int(s._result_squared_sum), _int(s.num_updates), _int(ra._value),
+                     _int(ra._total), _int(ra.num_updates), _int(mi._value), _int(tk._value)]) + _xstat(res, j, case)
+
+
+def run_mrg_impl(case):
+    """the paths the runner uses, driven directly: every group of repetitions is folded with
+    `merge_all_results` (start='empty': into a new SimulationResults; 'first': into the first repetition;
+    'result': Result.merge on the Result objects), the folded groups are appended to one collector with
+    `append_all_results` (or `append_result`, one Result at a time). Operands are snapshotted (R3)."""
+    from pyphysim.simulations.results import SimulationResults
+    collector = SimulationResults()
+    c = 0
+    operands = []
+    ngroups = 0
+    for g in case['groups']:
+        reps = []
+        for a in g:
+            reps.append(_rep_results(case, a, c))
+            c += 1
+        if not reps:
+            continue
+        start = case.get('start', 'empty')
+        if start == 'empty':
+            acc = SimulationResults()
+            rest = reps
+        else:
+            acc = reps[0]
+            rest = reps[1:]
+        for r in rest:
+            operands.append((r, _canon_results(r, 0, case)))
+        for r in rest:
+            if start == 'result':
+                for name in acc.get_result_names():
+                    acc[name][-1].merge(r[name][-1])
+            else:
+                acc.merge_all_results(r)
+        if case.get('append', 'all') == 'all':
+            collector.append_all_results(acc)
+        else:
+            for name in acc.get_result_names():
+                collector.append_result(acc[name][-1])
+        ngroups += 1
+    parts = []
+    k = 0
+    for g in case['groups']:
+        if not g:
+            parts.append('empty')
+        else:
+            parts.append(_canon_results(collector, k, case))
+            k += 1
+    obs = {'parts': parts, 'operands_changed': [i for i, (r, sn) in enumerate(operands)
+                                                if _canon_results(r, 0, case) != sn]}
+    return '|'.join(parts), obs
+
+
+def oracle_mrg(case, obs):
+    out = []
+    call = 'SimulationResults.merge_all_results'
+    c = 0
+    for gi, (g, part) in enumerate(zip(case['groups'], obs['parts'])):
+        if not g:
+            continue
+        toks = sum(1 << (c + j) for j in range(len(g)))
+        exp = '/'.join(str(x) for x in [sum(g), sum(a * a for a in g), len(g), sum(abs(a) % 5 for a in g),
+                                        8 * len(g), len(g), g[-1], toks]) + expected_extras(case, list(g))
+        c += len(g)
+        if part != exp:
+            out.append((call, 'stored-result-observables-not-fold',
+                        'group %d (repetitions %r, start=%s, append=%s): %s, fold of the repetitions %s'
+                        % (gi, g, case.get('start'), case.get('append'), part, exp)))
+            break
+    if obs.get('operands_changed'):
+        out.append((call, 'R3:input-mutated', 'merged-in operands %r changed' % obs['operands_changed'][:3]))
+    return out
+
+
+def gen_mrg(rng):
+    groups = [[rng.randint(-3, 6) for _ in range(rng.choice([0, 1, 1, 2, 3, 4]))] for _ in range(rng.randint(1, 4))]
+    return dict(kind='mrg', xr=gen_xr(rng, rng.randint(1, 5)), groups=groups,
+                start=rng.choice(['empty', 'first', 'result']), append=rng.choice(['all', 'all', 'result']),
+                xtype=rng.choice(['int', 'int', 'np.int64', 'np.int16']))
+
+
 # ------------------------------------------------------------------ histories that mutate the parameters
 def hist_line(case):
     names = case['names']
     vals = '|'.join(','.join(str(v) for v in case['vals'][n]) for n in names)
     outs = ','.join('s' if o == 's' else str(o) for o in case['outs'])
     return 'hist names=%s vals=%s repmax=%d keep=%s outs=%s ops=%s' % (
-        ','.join(names), vals, case['repmax'], ';'.join(case['keep']), outs, ','.join(case['ops']))
+        ','.join(names), vals, case['repmax'], ';'.join(case['keep']), outs, ','.join(case['ops'])) \
+        + (' xr=' + xr_token(case) if case.get('xr') else '')
 
 
 def parse_hop(op):
@@ -1118,7 +1370,8 @@ def gen_hist(rng):
     skip_p = rng.choice([0.0, 0.1, 0.2])
     outs = ['s' if rng.chance(skip_p) else rng.randint(-3, 6) for _ in range(380)]
     return dict(kind='hist', names=names, vals=vals, repmax=repmax, keep=keep, ops=ops, outs=outs, file=False,
-                look=[])
+                look=[], xr=gen_xr(rng) if rng.chance(0.5) else [],
+                xtype=rng.choice(['int', 'int', 'np.int64', 'np.int16']))
 
 
 def gen_hist2(rng):
@@ -1172,7 +1425,8 @@ def gen_hist2(rng):
     skip_p = rng.choice([0.0, 0.1, 0.2])
     outs = ['s' if rng.chance(skip_p) else rng.randint(-3, 6) for _ in range(380)]
     return dict(kind='hist', names=names, vals=vals, repmax=repmax, keep=keep, ops=ops, outs=outs, file=False,
-                look=[])
+                look=[], xr=gen_xr(rng) if rng.chance(0.5) else [],
+                xtype=rng.choice(['int', 'int', 'np.int64', 'np.int16']))
 
 
 def gen_rcase(rng, rclass):
@@ -1382,6 +1636,7 @@ def oracle_sim(case, obs, cfgs=None):
     final results; a skip changes neither the merged results nor the count."""
     out = []
     carry = {}          # position -> (sum, tok, rep) saved in a partial file
+    carry_hist = {}     # position -> values of the successful repetitions behind that file
     final_stats = None  # stats of the last completed all-variations simulate
     call = 'SimulationRunner.simulate'
     tag = [None]
@@ -1441,11 +1696,13 @@ def oracle_sim(case, obs, cfgs=None):
             groups[-1][1].append(ev)
         gi = 0
         done = []
+        done_hist = {}
         aborted = False
         for pos in positions:
             st = carry.get(pos) if file else None
             s, tok, rep = st if st else (0, 0, 0)
             have = st is not None
+            hist = list(carry_hist.get(pos, [])) if st else []
             if gi < len(groups) and groups[gi][0] == pos:
                 evs = groups[gi][1]
                 gi += 1
@@ -1496,6 +1753,7 @@ def oracle_sim(case, obs, cfgs=None):
                         s += o
                         tok += 1 << c
                         rep += 1
+                        hist.append(o)
                         have = True
                         permitted = False
                     last_keep = None
@@ -1507,11 +1765,13 @@ def oracle_sim(case, obs, cfgs=None):
                             'returned False on the final results' % (pos, rep, repmax))
                 return out
             done.append((pos, s, tok, rep))
+            done_hist[pos] = hist
         if aborted:
             # the variations completed before the script ran out have written their partial files
             if file:
                 for pos, s, tok, rep in done:
                     carry[pos] = (s, tok, rep)
+                    carry_hist[pos] = done_hist[pos]
             continue
         if gi != len(groups):
             emit(call, 'wrong-variation-order', 'events of variation %d after the last expected one'
@@ -1536,6 +1796,15 @@ def oracle_sim(case, obs, cfgs=None):
                                     'variation %d: stored sum=%s tok=%s, merged sum=%d tok=%d'
                                     % (pos, f[0], f[7], s, tok))
                         break
+                # every observable of every stored Result = fold of the successful repetitions
+                for j, (pos, s, tok, rep) in enumerate(done):
+                    exp = expected_extras(case, done_hist[pos])
+                    got = ob['xstats'][j] if j < len(ob.get('xstats', [])) else ''
+                    if got != exp:
+                        emit(call, 'stored-result-observables-not-fold',
+                             'variation %d after the successful repetitions %r: stored %s, fold of the '
+                             'repetitions %s' % (pos, done_hist[pos], got, exp))
+                        break
                 final_stats = ob['stats']
         else:
             if done:
@@ -1547,10 +1816,16 @@ def oracle_sim(case, obs, cfgs=None):
                 if sv is None or sv[0] != rep or sv[2].split('/')[0] != str(s) or sv[2].split('/')[7] != str(tok):
                     emit(call, 'stored-result-not-merge', 'variation %d: partial file %r, merged '
                                 'sum=%d tok=%d rep=%d' % (pos, sv, s, tok, rep))
+                elif len(sv) > 3 and sv[3] != expected_extras(case, done_hist[pos]):
+                    emit(call, 'stored-result-observables-not-fold',
+                         'variation %d after the successful repetitions %r: partial file holds %s, fold of the '
+                         'repetitions %s' % (pos, done_hist[pos], sv[3], expected_extras(case, done_hist[pos])))
         if file:
             for pos, s, tok, rep in done:
                 carry[pos] = (s, tok, rep)
+                carry_hist[pos] = done_hist[pos]
             if op == 'all' and delete:
+                carry_hist.clear()
                 carry.clear()     # delete_partial_results_bool: the partial files are removed at the end
         if out:
             return out
@@ -1648,9 +1923,42 @@ def _o_hist(case):
     return oracle_hist(case, obs)
 
 
-def _violations(case):
+def run_any(case, scratch):
+    """(canonical string, violations) of one case on the real code. An exception raised by the LIBRARY on an
+    input the property covers is a failing input, not an infrastructure error."""
     kind = case.get('kind')
-    return _o_grid(case) if kind == 'grid' else _o_hist(case) if kind == 'hist' else _o_sim(case)
+    try:
+        if kind == 'grid':
+            impl, obs = run_grid_impl(case)
+            return impl, obs, oracle_grid(case, obs)
+        if kind == 'hist':
+            impl, obs = run_hist_impl(case, scratch)
+            return impl, obs, oracle_hist(case, obs)
+        if kind == 'mrg':
+            impl, obs = run_mrg_impl(case)
+            return impl, obs, oracle_mrg(case, obs)
+        impl, obs = run_impl(case, scratch)
+        return impl, obs, oracle_sim(case, obs)
+    except core.Infra:
+        raise
+    except Exception as e:
+        import traceback
+        tb = traceback.extract_tb(e.__traceback__)
+        where = [f for f in tb if '/pyphysim/' in f.filename]
+        loc = '%s:%d' % (os.path.basename(where[-1].filename), where[-1].lineno) if where else \
+            '%s:%d' % (os.path.basename(tb[-1].filename), tb[-1].lineno)
+        call = {'grid': 'SimulationParameters.get_pack_indexes', 'mrg': 'SimulationResults.merge_all_results'}.get(
+            kind, 'SimulationRunner.simulate')
+        return 'exception:%s' % type(e).__name__, None, [
+            (call, tag_class(case, 'library-exception:' + type(e).__name__), '%r at %s' % (e, loc))]
+
+
+def _violations(case):
+    scratch = tempfile.mkdtemp(prefix='c05_replay_')
+    try:
+        return run_any(case, scratch)[2]
+    finally:
+        shutil.rmtree(scratch, ignore_errors=True)
 
 
 def _mk(call):
@@ -1662,7 +1970,9 @@ def _mk(call):
 ORACLES = {c: _mk(c) for c in ('SimulationRunner.simulate', 'SimulationResults.get_result_values_list',
                                'SimulationParameters.get_pack_indexes',
                                'SimulationParameters.get_unpacked_params_list',
-                               'SimulationParameters.get_num_unpacked_variations')}
+                               'SimulationParameters.get_num_unpacked_variations',
+                               'SimulationResults.merge_all_results', 'SimulationParameters.add',
+                               'SimulationParameters.remove', 'SimulationParameters.set_unpack_parameter')}
 
 
 def replay(ctx, rep):
@@ -1745,7 +2055,8 @@ def gen_case(rng):
         outs.append('s' if rng.chance(skip_p) else rng.randint(-3, 6))
     look = gen_looks(rng, names, vals, rng.randint(0, 3))
     return dict(kind='sim', names=names, vals=vals, repmax=repmax, file=file, keep=keep, ops=ops, outs=outs,
-                look=look)
+                look=look, xr=gen_xr(rng) if rng.chance(0.6) else [],
+                xtype=rng.choice(['int', 'int', 'np.int64', 'np.int16']))
 
 
 def classify(case, obs):
@@ -1768,20 +2079,37 @@ def run_cases(ctx, cases, name='simulate'):
     for lo in range(0, len(cases), 2000):
         chunk = cases[lo:lo + 2000]
         model = drv.ask([grid_line(c) if c['kind'] == 'grid' else hist_line(c) if c['kind'] == 'hist'
-                         else case_line(c) for c in chunk])
+                         else mrg_line(c) if c['kind'] == 'mrg' else case_line(c) for c in chunk])
         for c, m in zip(chunk, model):
-            if c['kind'] == 'grid':
-                impl, obs = run_grid_impl(c)
+            impl, obs, viols = run_any(c, ctx.scratch)
+            if obs is None:
+                # the library raised on an input the property covers: a failing input
+                ctx.corr('library-call:' + c['kind'], c, impl, m, nontrivial=False)
+                ctx.branch('library-exception')
+                for call, cls, detail in viols:
+                    ctx.fail(call, cls, c, detail)
+                continue
+            if c['kind'] == 'mrg':
+                key = ('mrg', tuple(t.split(':')[0] for t in c['xr']), tuple(len(g) for g in c['groups']),
+                       c['start'], c['append'])
+                ctx.corr('merge_all_results+append_all_results', c, impl, m,
+                         nontrivial=any(len(g) >= 2 for g in c['groups']), key=key)
+                ctx.branch('mrg')
+                ctx.branch('mrg:start=' + c['start'])
+                ctx.branch('mrg:append=' + c['append'])
+                for t in c['xr']:
+                    ctx.branch('xr:' + t.split(':')[0])
+                    ctx.branch('xr:form=' + t.split(':')[2])
+                ctx.sample({'line': mrg_line(c)[:300], 'impl': impl[:300], 'model': m[:300]}, limit=10)
+            elif c['kind'] == 'grid':
                 key = ('grid', tuple(sorted(len(c['vals'][n]) for n in c['names'])), len(c['look']),
                        tuple(sorted(k for fx in c['look'] for k, _ in fx)))
                 ctx.corr('get_unpacked_params_list+get_pack_indexes', c, impl, m,
                          nontrivial=len(c['names']) >= 1, key=key)
-                viols = oracle_grid(c, obs)
                 ctx.branch('grid:params=%d' % len(c['names']))
                 if any(k == 'error' for k, _ in obs['pack']):
                     ctx.branch('grid:pack-error')
             elif c['kind'] == 'hist':
-                impl, obs = run_hist_impl(c, ctx.scratch)
                 kinds = [o.split(':')[0] for o in c['ops']]
                 # look-ups that follow a mutation of the parameter set, and whether a simulate() came between
                 shape = []
@@ -1796,7 +2124,6 @@ def run_cases(ctx, cases, name='simulate'):
                         shape.append('q')
                 key = ('hist', tuple(sorted(len(c['vals'][n]) for n in c['names'])), ''.join(shape)[:12])
                 ctx.corr('history-with-parameter-mutations', c, impl, m, nontrivial='q' in shape, key=key)
-                viols = oracle_hist(c, obs)
                 ctx.branch('hist')
                 if 'mq' in ''.join(shape):
                     ctx.branch('hist:lookup-right-after-mutation')
@@ -1836,10 +2163,8 @@ def run_cases(ctx, cases, name='simulate'):
                     ctx.branch('R3:held-results-requeried')
                 ctx.branch('R3:snapshots-compared')
             else:
-                impl, obs = run_impl(c, ctx.scratch)
                 key = classify(c, obs)
                 ctx.corr(name, c, impl, m, nontrivial=bool(key[1]), key=key)
-                viols = oracle_sim(c, obs)
                 for ob in obs['ops']:
                     ctx.branch('status:' + ob['status'])
                 for st in key[1]:
@@ -1859,6 +2184,11 @@ def run_cases(ctx, cases, name='simulate'):
                 if any('rejected_changed' in ob for ob in obs['ops']):
                     ctx.branch('R4:rejected-call-checked')
                 ctx.branch('R3:snapshots-compared')
+            if c['kind'] in ('sim', 'hist') and c.get('xr'):
+                ctx.branch('xr:in-' + c['kind'])
+                for t in c['xr']:
+                    ctx.branch('xr:' + t.split(':')[0])
+                    ctx.branch('xr:form=' + t.split(':')[2])
             if c.get('rclass'):
                 ctx.branch(c['rclass'])
                 ctx.branch('%s:%s' % (c['rclass'], c['kind']))
@@ -1924,7 +2254,8 @@ def exhaustive_cases(max_bits, repmaxes, shape_bits=None):
                 nvar *= len(vals[nm])
             outs += [2] * ((repmax + 1) * nvar * len(ops))
             out.append(dict(kind='sim', names=names, vals=vals, repmax=repmax, file=file, keep=keep,
-                            ops=list(ops), outs=outs, look=[]))
+                            ops=list(ops), outs=outs, look=[],
+                            xr=['M1:1:ctor', 'S1:1:create', 'R1:2:ctor', 'C1:1:create', 'M0:2:addnew', 'M1:2:create']))
 
     grids = [([], {}), (['a'], {'a': [1, 2]}), (['b', 'a'], {'a': [1, 2], 'b': [3, 4]}),
              (['a', 'c', 'b'], {'a': [1], 'b': [2, 3], 'c': [4, 5]})]
@@ -1976,7 +2307,11 @@ def check(ctx):
                              'R5', 'R5:none', 'R5:floatlist', 'R6', 'R6:scale', 'R6:outs',
                              'R7:fresh-runner-twin', 'R7:simulate-after-rep_max-change',
                              'R7:rep_max-entry-in-params-differs', 'R7:delete-partial-results',
-                             'R7:lookup-vs-fresh-object']
+                             'R7:lookup-vs-fresh-object',
+                             'mrg', 'mrg:start=empty', 'mrg:start=first', 'mrg:start=result', 'mrg:append=all',
+                             'mrg:append=result', 'xr:in-sim', 'xr:in-hist', 'xr:S0', 'xr:S1', 'xr:R0', 'xr:R1',
+                             'xr:M0', 'xr:M1', 'xr:C0', 'xr:C1', 'xr:form=ctor', 'xr:form=create',
+                             'xr:form=addnew']
     cases = corpus_cases()
     rng = ctx.rng.fork('sim')
     cases += [gen_case(rng) for _ in range(1500 if quick else 15000)]
@@ -1984,6 +2319,8 @@ def check(ctx):
     hrng = ctx.rng.fork('hist')
     cases += [gen_hist(hrng) for _ in range(500 if quick else 5000)]
     cases += [gen_hist2(hrng) for _ in range(400 if quick else 4000)]
+    mrng = ctx.rng.fork('mrg')
+    cases += [gen_mrg(mrng) for _ in range(1500 if quick else 30000)]
     rrng = ctx.rng.fork('robust')
     for rc in ('R1', 'R2', 'R5', 'R6'):
         cases += [gen_rcase(rrng, rc) for _ in range(250 if quick else 2000)]
@@ -2010,16 +2347,9 @@ def search(ctx):
     cases = corpus_cases() + [gen_case(rng) for _ in range(1500)] + grid_cases(rng, 3000) \
         + [gen_hist(rng) for _ in range(1000)] + [gen_hist2(rng) for _ in range(1000)] \
         + [gen_rcase(rng, rc) for rc in ('R1', 'R2', 'R5', 'R6') for _ in range(300)] + exhaustive_cases(5, (1, 2))
+    cases += [gen_mrg(rng) for _ in range(3000)]
     for c in cases:
-        if c['kind'] == 'grid':
-            _, obs = run_grid_impl(c)
-            viols = oracle_grid(c, obs)
-        elif c['kind'] == 'hist':
-            _, obs = run_hist_impl(c, ctx.scratch)
-            viols = oracle_hist(c, obs)
-        else:
-            _, obs = run_impl(c, ctx.scratch)
-            viols = oracle_sim(c, obs)
+        viols = run_any(c, ctx.scratch)[2]
         ctx.count(('search', len(ctx.distinct)), False)
         seen = set()
         for call, cls, detail in viols:
